@@ -236,8 +236,9 @@ class VolumeMesh(Mesh):
             self._adjC2F : dict = None
             self._adjF2C : dict = None
             
-            self._adjC2E : dict = None
+            self._adjE2F : dict = None
             self._adjE2C : dict = None
+            self._adjC2E : dict = None
         
         def clear(self):
             super().clear()
